@@ -433,6 +433,24 @@ structure NewNHG where
   NextHop : List NewNHGMember
   deriving DecidableEq, Repr, Inhabited
 
+/-- an element of the one-entry candidate RIB that `AddIPv4` … build and announce (opaque) -/
+structure NewElem where
+  Key : Nat
+  deriving DecidableEq, Repr, Inhabited
+
+/-- the candidate `*aft.RIB` returned by `candidateRIB` (its `Afts` is never nil) -/
+structure NewAfts where
+  Ipv4Entry : List NewElem
+  Ipv6Entry : List NewElem
+  LabelEntry : List NewElem
+  NextHopGroup : List NewElem
+  NextHop : List NewElem
+  deriving DecidableEq, Repr, Inhabited
+
+structure NewRIB where
+  Afts : NewAfts
+  deriving DecidableEq, Repr, Inhabited
+
 /-- `rib.OpResult` as far as it is compared: the operation's id -/
 structure RibOpResult where
   ID : Nat
@@ -469,6 +487,10 @@ inductive Eff where
   | addMPLS (ni : String) (e : Option LabelEntryC) (replace : Bool)
   | addNHG (ni : String) (e : Option NHGEntryC) (replace : Bool)
   | addNH (ni : String) (e : Option NHEntryC) (replace : Bool)
+  /-- `doAddIPv4(key, candidate)` …: the candidate is merged into the instance's table (`kind` = 4, 6, 1 MPLS, 2 group, 3 next-hop) -/
+  | tableAdd (kind : Nat) (candidate : Option NewRIB)
+  /-- the post-change hook: `hook(optype, ts, instance, entry)` -/
+  | postHook (optype : Nat) (ni : String) (elem : Option NewElem)
   | delIPv4 (ni : String) (e : Option IPv4EntryC)
   | delIPv6 (ni : String) (e : Option IPv6EntryC)
   | delMPLS (ni : String) (e : Option LabelEntryC)
